@@ -63,7 +63,7 @@ PROPS = {
                      'function contracts for find()/converters, VCs discharged by z3',
     },
     'C17': {
-        'modules': ['contracts.C17_websocket'],
+        'modules': ['contracts.C17_websocket', 'contracts.C18_ws_buffer'],
         'level': 'proof',
         'level_text': 'Session monitor over every event handed to the server send (CONNECTING/OPEN/CLOSED/LOST, send may fail at every event) plus a typestate '
                       'invariant linking WebSocket._state to it, assumed at entry and proved at exit of every public method (accept, close, send_*, receive_*, '
